@@ -403,38 +403,102 @@ fn short(r: &Result<Obs, String>) -> String {
     }
 }
 
+/// Union of two disks, each clipped by two half-planes that share x and y
+/// with the disk: min(max(max(x-a, y-b), disk), max(max(x-c, y-d), disk'))
+pub fn clipped_disks() -> Prog {
+    let mut p = Prog::default();
+    let x = p.push(POp::Var(0));
+    let y = p.push(POp::Var(1));
+    let mut part = |p: &mut Prog, a: f32, b: f32, cx: f32, cy: f32, r2: f32| {
+        let ka = p.push(POp::Const(a));
+        let xa = p.push(POp::Bin(B::Sub, x, ka));
+        let kb = p.push(POp::Const(b));
+        let yb = p.push(POp::Bin(B::Sub, y, kb));
+        let half = p.push(POp::Bin(B::Max, xa, yb));
+        let kx = p.push(POp::Const(cx));
+        let dx = p.push(POp::Bin(B::Sub, x, kx));
+        let ky = p.push(POp::Const(cy));
+        let dy = p.push(POp::Bin(B::Sub, y, ky));
+        let sx = p.push(POp::Un(U::Square, dx));
+        let sy = p.push(POp::Un(U::Square, dy));
+        let s = p.push(POp::Bin(B::Add, sx, sy));
+        let kr = p.push(POp::Const(r2));
+        let disk = p.push(POp::Bin(B::Sub, s, kr));
+        p.push(POp::Bin(B::Max, half, disk))
+    };
+    let a = part(&mut p, -0.5625, 0.5, -0.9375, 0.1875, 0.3125);
+    let b = part(&mut p, 0.0, -0.0, -0.75, -0.6875, 0.125);
+    let r = p.push(POp::Bin(B::Min, a, b));
+    p.roots = vec![r];
+    p
+}
+
 /// RenderHandle: all orders of simplify (cache hit / miss) and recycle
 fn render_handle_unit<F: Backend + fidget_core::render::RenderHints>(cx: &mut Cx, sub: &mut u64, depth: usize) {
-    let progs = pool_progs();
-    for fi in [1usize, 6] {
+    let mut progs = pool_progs();
+    progs.push(("two clipped disks", clipped_disks()));
+    let last = progs.len() - 1;
+    for fi in [1usize, 6, last] {
         let p = &progs[fi].1;
         let mut ctx = Context::new();
         let roots = p.build(&mut ctx);
         let Ok(f) = evalkit::build::<F>(&ctx, &roots) else { continue };
         let nv = f.vars().len();
-        // three traces from three boxes
-        let boxes: Vec<Vec<Interval>> = vec![
+        // Trace discovery: the boxes of 3^nv, 6^nv, 12^nv and 2^nv grids over [-1.5, 1.5]^nv (plus
+        // three fixed boxes) are evaluated; the distinct traces are classified
+        // by whether simplifying with them shortens the function (if not, the
+        // handle caches nothing and evicts what it had) and up to three
+        // shortening + two non-shortening traces form the alphabet.
+        let mut cand: Vec<Vec<Interval>> = vec![
             (0..nv).map(|i| Interval::new(-1.0 + i as f32, -0.5 + i as f32)).collect(),
             (0..nv).map(|i| Interval::new(0.75 + i as f32 * 0.5, 1.0 + i as f32 * 0.5)).collect(),
             (0..nv).map(|i| Interval::new(2.0 - i as f32, 2.0 - i as f32)).collect(),
         ];
-        let traces: Vec<Option<VmTrace>> = boxes
-            .iter()
-            .map(|b| {
-                let t = f.interval_tape(Default::default());
-                F::new_interval_eval().eval(&t, b).ok().and_then(|(_, t)| t.cloned())
-            })
-            .collect();
+        for (g, w) in [(3usize, 1.0f32), (6, 0.5), (12, 0.25), (2, 1.5)] {
+            for k in 0..g.pow(nv as u32) {
+                cand.push(
+                    (0..nv)
+                        .map(|i| {
+                            let c = (k / g.pow(i as u32)) % g;
+                            Interval::new(-1.5 + w * c as f32, -1.5 + w * (c + 1) as f32)
+                        })
+                        .collect(),
+                );
+            }
+        }
+        let mut boxes: Vec<Vec<Interval>> = vec![];
+        let mut traces: Vec<Option<VmTrace>> = vec![];
+        let (mut n_short, mut n_same) = (0, 0);
+        for b in cand {
+            let t = f.interval_tape(Default::default());
+            let Some(tr) = F::new_interval_eval().eval(&t, &b).ok().and_then(|(_, t)| t.cloned()) else { continue };
+            if traces.iter().flatten().any(|o| o.as_slice() == tr.as_slice()) {
+                continue;
+            }
+            let Ok(c) = f.simplify(&tr, Default::default(), &mut Default::default()) else { continue };
+            let shortens = c.size() < f.size();
+            if std::env::var("FV_DEBUG_SIZES").is_ok() {
+                println!("fi={fi} trace={:?} parent={} child={} box={:?}", tr.as_slice(), f.size(), c.size(), b);
+            }
+            if (shortens && n_short < 3) || (!shortens && n_same < 2) {
+                if shortens { n_short += 1 } else { n_same += 1 }
+                boxes.push(b);
+                traces.push(Some(tr));
+            }
+        }
+        cx.add("render_handle_traces_shortening", n_short);
+        cx.add("render_handle_traces_not_shortening", n_same);
+        let nt = traces.len();
         let pts: Vec<Vec<f32>> = boxes.iter().map(|b| b.iter().map(|i| i.lower()).collect()).collect();
         // expected value of the original function at each point
         let expect: Vec<Vec<u32>> = pts
             .iter()
             .map(|pt| evalkit::eval_point(&f, pt).map(|(o, _)| o.iter().map(|v| v.to_bits()).collect()).unwrap_or_default())
             .collect();
-        // sequences over {simplify with trace 0,1,2}
+        // sequences over the trace alphabet
         let mut seqs: Vec<Vec<usize>> = vec![vec![]];
         for _ in 0..depth {
-            seqs = seqs.into_iter().flat_map(|s| (0..3).map(move |t| { let mut q = s.clone(); q.push(t); q })).collect();
+            seqs = seqs.into_iter().flat_map(|s| (0..nt).map(move |t| { let mut q = s.clone(); q.push(t); q })).collect();
         }
         for seq in seqs {
             let s = *sub;
@@ -549,14 +613,14 @@ impl Check for C10 {
     }
     fn meta(&self, tier: Tier) -> Meta {
         Meta {
-            rule: "case = sequence of uses executed on shared long-lived objects; function pool of 8 differently shaped functions {no choice / 2 vars; 3 vars / 2 choices; 14 live values (spills); 3 outputs incl. a constant; a free variable; zero variables; 40 choices; a HUGE one with ~1400 simultaneously live values (> 1024 spill slots at every register budget, 8400 nodes) and one choice, taking part with 3 uses}; a use = (point | interval | float-slice | grad-slice evaluation, function, one of 2 inputs with different sample counts) or (simplify function with the trace of one of 2 boxes, evaluate and recycle the child); 73 uses; EVERY sequence up to the depth bound goes through ONE evaluator per kind, ONE stack of recycled tape storage (JIT: executable mappings larger / smaller than the next code), ONE stack of recycled function storage and ONE workspace; each step's outputs, trace and (for simplify) the child's tape must equal bit-for-bit the same call on fresh objects; RenderHandle: every sequence of simplify calls over 3 traces (cached-next hit and miss, recycle) up to the depth bound; backends VM<255>, VM<3>, JIT; no state de-duplication (storage is opaque)".into(),
+            rule: "case = sequence of uses executed on shared long-lived objects; function pool of 8 differently shaped functions {no choice / 2 vars; 3 vars / 2 choices; 14 live values (spills); 3 outputs incl. a constant; a free variable; zero variables; 40 choices; a HUGE one with ~1400 simultaneously live values (> 1024 spill slots at every register budget, 8400 nodes) and one choice, taking part with 3 uses}; a use = (point | interval | float-slice | grad-slice evaluation, function, one of 2 inputs with different sample counts) or (simplify function with the trace of one of 2 boxes, evaluate and recycle the child); 73 uses; EVERY sequence up to the depth bound goes through ONE evaluator per kind, ONE stack of recycled tape storage (JIT: executable mappings larger / smaller than the next code), ONE stack of recycled function storage and ONE workspace; each step's outputs, trace and (for simplify) the child's tape must equal bit-for-bit the same call on fresh objects; RenderHandle: on 3 functions (2 choices; 40 choices; a union of two clipped disks) every sequence of simplify calls over up to 5 traces discovered on grids of boxes of four sizes - up to three that shorten the function differently and up to two that do not, which makes the handle evict without caching - (cached-next hit, miss, eviction, recycle) up to the depth bound; backends VM<255>, VM<3>, JIT; no state de-duplication (storage is opaque)".into(),
             bounds: match tier {
-                Tier::Quick => "depth 2 over all 73 uses; depth 3 over the 40 uses of the 4 most differently shaped functions; RenderHandle depth 3".into(),
-                Tier::Thorough => "depth 3 over all 73 uses; depth 4 over the 40-use sub-alphabet; RenderHandle depth 4".into(),
+                Tier::Quick => "depth 2 over all 73 uses; depth 3 over the 40 uses of the 4 most differently shaped functions; RenderHandle depth 4".into(),
+                Tier::Thorough => "depth 3 over all 73 uses; depth 4 over the 40-use sub-alphabet; RenderHandle depth 5".into(),
             },
             assumptions: vec!["observations are bit patterns of outputs, traces and, for simplify, size/choice count/tape hash of the child".into()],
             crash_policy: CrashPolicy::Violation,
-            vacuity: vec![("cases", 5000), ("render_handle_sequences", 50)],
+            vacuity: vec![("cases", 5000), ("render_handle_sequences", 50), ("render_handle_traces_not_shortening", 1), ("render_handle_traces_shortening", 2)],
             transitions_counter: "evals",
             nontrivial_counter: "nontrivial",
             exhaustive: true,
@@ -571,7 +635,7 @@ impl Check for C10 {
             },
             Unit::Handles { backend } => {
                 let mut sub = 0u64;
-                let depth = if tier == Tier::Quick { 3 } else { 4 };
+                let depth = if tier == Tier::Quick { 4 } else { 5 };
                 match backend {
                     0 => render_handle_unit::<VmFunction>(cx, &mut sub, depth),
                     1 => render_handle_unit::<GenericVmFunction<3>>(cx, &mut sub, depth),
